@@ -11,9 +11,10 @@ import walk_common as wc  # noqa: E402
 LEVEL = "proof"
 PROPS = "Walk/Props_C09.v"
 COQ_FILES = wc.COQ_FILES + ["Walk/Invariant.v", "Walk/Faults.v", "Walk/FaultProofs.v", "Walk/ConfineProofs.v",
-                            "Walk/ContainProofs.v", "Walk/LimitProofs.v", "Walk/SubdirProofs.v", "Walk/PathsProofs.v", "Walk/Props_C09.v"]
+                            "Walk/ContainProofs.v", "Walk/LimitProofs.v", "Walk/SubdirProofs.v", "Walk/PathsProofs.v", "Walk/MultiFaultProofs.v", "Walk/Props_C09.v"]
 THEOREMS = ["nonfatal_never_fails", "faults_contained", "faults_surface", "required_file_outcome",
-            "fatal_iff_traversal_fault", "scan_status_derivation", "faults_contained_paths"]
+            "fatal_iff_traversal_fault", "scan_status_derivation", "faults_contained_paths", "multiroot_faults_contained",
+            "multiroot_faults_surface"]
 
 META = {
     "technique": "Coq proof over all trees carrying any number of fault annotations (walk = execution of a pure schedule; "
@@ -22,7 +23,7 @@ META = {
     "level_text": "Theorems (all trees, any combination of faults at: root stat, open-dir, k-th ReadDir, open file, stat of the open "
                   "file; ErrorOnFSErrors off, no inode limit/cancel): the scan completes without error or panic "
                   "(nonfatal_never_fails), its Extract calls are exactly those of the fault-erased tree whose path is not lost "
-                  "(faults_contained; in requested-paths mode a path that cannot be stat'ed contributes nothing and does not affect later paths: faults_contained_paths), every open/stat/extract failure is an item of the owning plugin's failed / partially-"
+                  "(faults_contained; in requested-paths mode a path that cannot be stat'ed contributes nothing and does not affect later paths: faults_contained_paths; over several roots a fault in one root never changes another root's calls and the statuses are those of all roots together: multiroot_faults_contained, multiroot_faults_surface), every open/stat/extract failure is an item of the owning plugin's failed / partially-"
                   "succeeded status and every non-succeeded status has such a cause (faults_surface, required_file_outcome); "
                   "with ErrorOnFSErrors the scan succeeds iff no traversal fault is reached, an unreadable .gitignore of an entered directory (permission or other error) being one (fatal_iff_traversal_fault); Scan's "
                   "status is Failed iff Run returned an error (scan_status_derivation). No refutation is left: the lazy-Stat abort, the "
@@ -44,6 +45,8 @@ DEFS = [
     ("fail_idx", "bad_indices (fun w => negb (c09_base_domain w) || c09_spec_on_obs w) {c} 0"),
     ("paths_bad", "bad_indices case_spec_ok_C09_paths {c} 0"),
     ("pathsdom_idx", "bad_indices (fun w => negb (c09_paths_domain w)) {c} 0"),
+    ("multi_bad", "bad_indices case_spec_ok_C09_multi {c} 0"),
+    ("multidom_idx", "bad_indices (fun w => negb (c09_multi_domain w)) {c} 0"),
 ]
 
 
@@ -75,7 +78,7 @@ def run(ctx):
         return
     ctx.log("harness ran %d cases" % len(cases))
     res, nshards = wc.shard_eval(ctx, "C09", vfile, DEFS)
-    corr_bad, spec_bad = res["corr_bad"], sorted(set(res["spec_bad"] + res["paths_bad"]))
+    corr_bad, spec_bad = res["corr_bad"], sorted(set(res["spec_bad"] + res["paths_bad"] + res["multi_bad"]))
     in_pathsdom = set(res["pathsdom_idx"])
     in_dom, in_base, fails = set(res["dom_idx"]), set(res["base_idx"]), set(res["fail_idx"])
     ctx.log("corr_bad=%d spec_bad=%d in_D=%d statement_domain=%d failing_outside_D=%d shards=%d" %
@@ -128,7 +131,7 @@ def run(ctx):
             "outcome": wc.histogram(c["obs"]["class"] for c in cases),
             "base_trees": len({c.get("variant") for c in cases}),
             "statement_domain": len(in_base), "inside_D": len(in_dom), "rejected_by_D": len(in_base - in_dom),
-            "requested_paths_fault_oracle_domain": len(in_pathsdom), "streams": wc.histogram(c["stream"] for c in cases),
+            "requested_paths_fault_oracle_domain": len(in_pathsdom), "multi_root_fault_oracle_domain": len(set(res["multidom_idx"])), "streams": wc.histogram(c["stream"] for c in cases),
         },
         "vm_compute_cases": len(cases),
         "explanation": "fault enumeration is the input space of the correspondence (every single fault over every generated base tree"
@@ -152,6 +155,6 @@ def replay(ctx, path):
             ("model_eq_impl", "case_model_ok w"),
             ("in_D", "c09_domain w"), ("spec_on_obs", "c09_spec_on_obs w"), ("spec_ok", "case_spec_ok_C09 w"),
             ("paths_domain", "c09_paths_domain w"), ("paths_expected_calls", "expected_paths_faulty (cfg_of_case w) (match w_roots w with [t] => t | _ => dummy_node end)"),
-            ("paths_spec_ok", "case_spec_ok_C09_paths w")])
+            ("paths_spec_ok", "case_spec_ok_C09_paths w"), ("multi_root_domain", "c09_multi_domain w"), ("multi_root_spec_ok", "case_spec_ok_C09_multi w")])
         print(out)
     return 0
